@@ -759,6 +759,13 @@ class MiniEval(object):
         if isinstance(n, ast.Call):
             fn = dotted(n.func)
             args = [self.ev(a, env) for a in n.args]
+            if fn in ('collections.deque', 'deque') and len(args) <= 2 and all(k.arg == 'maxlen' for k in n.keywords):
+                import collections
+                ml = [self.ev(k.value, env) for k in n.keywords] or (args[1:2] or [None])
+                try:
+                    return collections.deque(args[0] if args else (), ml[0])
+                except (TypeError, ValueError) as ex:
+                    raise _NoEval(str(ex))
             if n.keywords and not (fn == 'sorted' and all(k.arg == 'reverse' for k in n.keywords)):
                 raise _NoEval('keywords')
             table = {'any': any, 'all': all, 'list': list, 'tuple': tuple, 'set': set, 'frozenset': frozenset, 'len': len, 'bool': bool, 'str': str,
@@ -1064,6 +1071,23 @@ def check_decrypt_delegation(rep, prog):
             inter = True               # for skid in <own subkey ids> & <recipients>: ...
         member = path_relations(s).get(('cmp', 'in', idx, enc)) is True and \
             (s.bound.get(idx) in subs + tuple(sb + '.keys()' for sb in subs) or (pair is not None and idx == pair.group(1) + '_0'))
+        # decryption is not capability-gated: the candidates are ALL own subkeys named by the message - a filtered candidate set
+        # (e.g. only subkeys whose binding grants an encryption flag) no longer finds the addressed subkey
+        filtered = None
+        whole = idx if idx not in s.bound else s.bound[idx] + ' ' + s.filters.get(idx, '')
+        m_f = re.search(r'EACH\([^;]*? in (?:%s)(?:\.items\(\)|\.keys\(\)|\.values\(\))? if ([^;]*);' % '|'.join(re.escape(sb) for sb in subs), whole)
+        if m_f:
+            filtered = m_f.group(1)
+        if member:
+            v_ = pair.group(1) if pair is not None else idx
+            extra = [k for k, val in path_relations(s).items() if k != ('cmp', 'in', idx, enc) and re.search(re.escape(v_) + r'(?!\.?\d)', str(k))]
+            if extra or s.filters.get(v_):
+                filtered = s.filters.get(v_) or str(extra[0])
+        if filtered is not None:
+            rep.violation('C16.6', 'PGPKey.decrypt', 'delegation candidates filtered by %s' % filtered[:120],
+                          'decryption must find the addressed subkey: every own subkey whose key id is among the message\'s recipients is a '
+                          'candidate, whatever its usage flags say', where=fi.where, expected='set(self.subkeys) & set(message.encrypters)', found=r)
+            continue
         if not (inter or member) and enc in idx:
             raise AnalysisError('PGPKey.decrypt: choice of the delegate %s not understood' % idx)
         rep.check(inter or member, 'C16.6', 'PGPKey.decrypt', 'delegates to %s' % r,
@@ -1075,6 +1099,8 @@ def check_decrypt_delegation(rep, prog):
              'set().union(EACH($1in%s._sessionkeysifisinstance($1,PKESessionKey);$1.encrypter))' % me,
              '{$1.encrypterfor$1in%s._sessionkeysifisinstance($1,PKESessionKey)}' % me)
     outs = Interp(prog, Scenario(inline=noinline)).run(en)
+    each = 'EACH($1in%s._sessionkeysifisinstance($1,PKESessionKey);$1.encrypter)' % me
+    forms = forms + (each, 'frozenset(%s)' % each, 'set(list(%s))' % each)        # (a set comprehension renders as the bare iteration term)
     if all(alpha(render(s.ret)).replace(' ', '') in forms for s in outs):
         rep.ok('C16.6', 'PGPMessage.encrypters', 'key ids of the public-key session-key packets')
         return
